@@ -15,6 +15,7 @@ open _root_.Gencommon
 structure TyDecl where
   pkg : Nat
   name : String
+  iface : Bool := false
   methods : List (Name × Sig) := []
   embeds : List (Nat × String) := []
 
@@ -39,7 +40,7 @@ partial def parseTy (st : St) : List String → Option (GoType × List String)
   | w :: rest =>
     match w.splitOn ":" with
     | ["b", n] => some (.basic n.toList, rest)
-    | "o" :: t => some (.other (":".intercalate t).toList, rest)
+    | "o" :: t => some (.other ((":".intercalate t).replace "~" " ").toList, rest)
     | ["n", p, n] => p.toNat?.map fun p => (.named (pkgOf st p).1 (pkgOf st p).2 n.toList [], rest)
     | ["g", p, n, k] => do
       let p ← p.toNat?
@@ -79,17 +80,33 @@ where
 def findDecl (st : St) (p : Nat) (n : String) : Option TyDecl :=
   st.tys.find? (fun d => d.pkg = p && d.name = n)
 
-/-- unroll the declared embedding graph into the model's tree (fuel bounds the depth) -/
-def buildTy (st : St) : Nat → Nat → String → Ty Sig
-  | 0, _, _ => .mk [] []
+/-- complete method set of an interface type (`(*types.Interface).NumMethods/Method`):
+explicit methods and those of embedded interfaces, once per name -/
+def ifaceMethods (st : St) : Nat → Nat → String → List (Name × Sig)
+  | 0, _, _ => []
   | fuel + 1, p, n =>
     match findDecl st p n with
-    | none => .mk [] []
-    | some d => .mk d.methods (d.embeds.map (fun e => buildTy st fuel e.1 e.2))
+    | none => []
+    | some d =>
+      let all := d.methods ++ (d.embeds.map (fun e => ifaceMethods st fuel e.1 e.2)).flatten
+      all.foldl (fun acc m => if acc.any (fun x => x.1 = m.1) then acc else acc ++ [m]) []
 
-def mapTy {σ τ : Type} (f : σ → τ) : Nat → Ty σ → Ty τ
-  | 0, _ => .mk [] []
-  | k + 1, .mk own emb => .mk (own.map (fun m => (m.1, f m.2))) (emb.map (mapTy f k))
+def selfOf (st : St) (p : Nat) (n : String) : GoType :=
+  .named (pkgOf st p).1 (pkgOf st p).2 n.toList []
+
+/-- unroll the declared embedding graph into the model's tree (fuel bounds the depth) -/
+def buildTy (st : St) : Nat → Nat → String → Ty GoType Sig
+  | 0, p, n => .mk (selfOf st p n) [] []
+  | fuel + 1, p, n =>
+    match findDecl st p n with
+    | none => .mk (selfOf st p n) [] []
+    | some d =>
+      if d.iface then .mk (selfOf st p n) (ifaceMethods st (fuel + 1) p n) []
+      else .mk (selfOf st p n) d.methods (d.embeds.map (fun e => buildTy st fuel e.1 e.2))
+
+def mapTy {ρ σ τ : Type} (f : σ → τ) : Nat → Ty ρ σ → Ty Unit τ
+  | 0, _ => .mk () [] []
+  | k + 1, .mk _ own emb => .mk () (own.map (fun m => (m.1, f m.2))) (emb.map (mapTy f k))
 
 def initIH (st : St) : IH :=
   let pin := st.imps.map (fun i => pkgOf st i.1)
@@ -115,8 +132,8 @@ def handle (st : St) (ws : List String) : St × String :=
   | ["imp", i, al] => match i.toNat? with
     | some i => ({ st with imps := st.imps ++ [(i, if al = "-" then none else some al.toList)] }, "ok")
     | none => (st, "bad-op")
-  | ["ty", p, n, _kind] => match p.toNat? with
-    | some p => ({ st with tys := st.tys ++ [{ pkg := p, name := n }] }, "ok")
+  | ["ty", p, n, kind] => match p.toNat? with
+    | some p => ({ st with tys := st.tys ++ [{ pkg := p, name := n, iface := kind = "iface" }] }, "ok")
     | none => (st, "bad-op")
   | ["emb", p, n, _ptr, p2, n2] => match p.toNat?, p2.toNat? with
     | some p, some p2 => (updTy st p n (fun d => { d with embeds := d.embeds ++ [(p2, n2)] }), "ok")
